@@ -414,6 +414,33 @@ theorem table_target_resolution (root dir p : Bytes) (hd : ∀ b ∈ dir, b ≠ 
   rw [tableLocation_resolve root dir _ hd, tableLocation_resolve root dir _ hd]
   exact ⟨by simp [resolveTarget], by simp [resolveTarget]⟩
 
+/-- `table_location_no_panic`: the resolution of a table relationship target returns for arbitrary byte
+    strings — sheet folder and target — and a `../` target of a sheet part stored directly in a top-level
+    folder (no parent inside the part name) resolves against the package root (since fix d0ab106; the pinned
+    code panicked with "Must be a parent folder") -/
+theorem table_location_no_panic (base target : Bytes) :
+    (∃ o, tableLocation base target = .ok o) ∧
+    ((∀ b ∈ base, b ≠ 47) → ∀ p, tableLocation base (46 :: 46 :: 47 :: p) = .ok (some p)) := by
+  constructor
+  · unfold tableLocation
+    split
+    · cases rfindSlash base <;> exact ⟨_, rfl⟩
+    · split
+      · exact ⟨_, rfl⟩
+      · split <;> exact ⟨_, rfl⟩
+  · intro hb p
+    unfold tableLocation
+    simp [rfindSlash_noSlash base hb]
+
+/-- `rels_path_no_panic`: every sheet path `read_workbook` stores starts with `xl/` (its three arms produce
+    `xl/…`), so the `rfind('/').expect("should be in a folder")` of `read_table_metadata` cannot fail -/
+theorem rels_path_no_panic (rest : Bytes) : ∃ r, relsPathOf (120 :: 108 :: 47 :: rest) = .ok r := by
+  unfold relsPathOf
+  have hsome := rfindSlash_xl rest
+  obtain ⟨i, hi⟩ := hsome
+  rw [hi]
+  exact ⟨_, rfl⟩
+
 /-- `read_table_metadata` over the workbook: `Xlsx::tables` holds exactly the declared tables — in sheet
     order, then in the order of the sheet's table relationships —, each with its declared name, the name of
     the sheet that declares it, its column names, and as dimensions the reference minus header and totals
